@@ -329,6 +329,21 @@ def protoDecodeFull (fs : List Field) (b : Bytes) : Option (List (Nat Ã— PVal) Ã
 
 def protoDecode (fs : List Field) (b : Bytes) : Option Canon := (protoDecodeFull fs b).map (Â·.1)
 
+def PVal.toRaw : PVal â†’ Raw
+  | .num n => .varint n
+  | .str b => .bytes b
+
+/-- well-formed message type: field numbers are valid (1 .. 2^29-1) and unambiguous - the field
+    found by number has the kind of the field looked for (decidable; holds for both shipped
+    schemas, Props/C19 `tie_schema_shape`) -/
+def fieldsOK (fs : List Field) : Bool :=
+  fs.all fun fd => decide (1 â‰¤ fd.num) && decide (fd.num < 2 ^ 29) &&
+    ((fs.find? fun x => x.num == fd.num).map (Â·.kind) == some fd.kind)
+
+/-- every string is shorter than 2^64 bytes (in Go `len` is an int; the length prefix is a uint64 varint) -/
+def sizesOK (c : Canon) : Bool :=
+  c.all fun nv => match nv.2 with | .str b => decide (b.length < 2 ^ 64) | .num _ => true
+
 /-- the struct a sequence of assignments in wire order leaves behind -/
 def toFlow (c : List (Nat Ã— PVal)) : Flow := c.reverse
 
@@ -461,6 +476,13 @@ def dataRecords (msgs : List Msg) : List (Hdr Ã— Record) :=
 /-- the guard: every string field of the record's proto message is valid UTF-8 -/
 def recordValid (S : Schema) (hr : Hdr Ã— Record) : Bool :=
   stringsValid (normalise (wireOrder S.fields) (fieldsOf S hr.1 hr.2))
+
+/-- the protobuf bytes of a data record whose strings are valid -/
+def bodyOf (S : Schema) (hr : Hdr Ã— Record) : Bytes :=
+  encodeCanon (normalise (wireOrder S.fields) (fieldsOf S hr.1 hr.2))
+
+/-- the protobuf bytes fit the 4-byte length prefix (`uint32(len(bytes))` does not wrap) -/
+def recordFits (S : Schema) (hr : Hdr Ã— Record) : Bool := decide ((bodyOf S hr).length < 2 ^ 32)
 
 /-! ## the consumer -/
 
